@@ -11,29 +11,29 @@ import (
 )
 
 type Profile struct {
-	Name       string
-	NumTable   string
-	TimeTable  string
-	Colls      int     // collections in play
-	Ops        int     // events per trace
-	MaxDocs    int     // ids in the pool
-	Indexes    bool    // create / drop indexes
-	Invalid    float64 // probability of deliberately invalid input
-	Rich       bool    // deeply nested values
-	W          map[string]int
-	ReadAudit  float64 // probability of auditing after a read
-	Twins      int     // >0: mirrored collections differing only in their indexes
-	SortHeavy  bool
-	CloseOps   bool
-	IOOps      bool
-	Names      []string
-	Pads       bool   // documents carry a padding string of 0 .. 70 000 bytes
-	PrefixNames bool  // the collections include a family of names that are prefixes of each other
-	Aim        string // queries, sorts and documents favour this field
-	AltIds     bool // ids in every textual form uuid.FromString accepts, not only the canonical one
-	BigInts    bool
-	IdxPool    []string // fields CreateIndex chooses from
-	NoGenIds   bool     // never leave the _id to clover (several backends must store identical documents)
+	Name        string
+	NumTable    string
+	TimeTable   string
+	Colls       int     // collections in play
+	Ops         int     // events per trace
+	MaxDocs     int     // ids in the pool
+	Indexes     bool    // create / drop indexes
+	Invalid     float64 // probability of deliberately invalid input
+	Rich        bool    // deeply nested values
+	W           map[string]int
+	ReadAudit   float64 // probability of auditing after a read
+	Twins       int     // >0: mirrored collections differing only in their indexes
+	SortHeavy   bool
+	CloseOps    bool
+	IOOps       bool
+	Names       []string
+	Pads        bool   // documents carry a padding string of 0 .. 70 000 bytes
+	PrefixNames bool   // the collections include a family of names that are prefixes of each other
+	Aim         string // queries, sorts and documents favour this field
+	AltIds      bool   // ids in every textual form uuid.FromString accepts, not only the canonical one
+	BigInts     bool
+	IdxPool     []string // fields CreateIndex chooses from
+	NoGenIds    bool     // never leave the _id to clover (several backends must store identical documents)
 }
 
 var baseWeights = map[string]int{
@@ -162,7 +162,7 @@ func NewGen(seed int64, p *Profile) *Gen {
 }
 
 func (g *Gen) pick(xs []string) string { return xs[g.r.Intn(len(xs))] }
-func (g *Gen) chance(p float64) bool { return g.r.Float64() < p }
+func (g *Gen) chance(p float64) bool   { return g.r.Float64() < p }
 
 func (g *Gen) num() V {
 	ord := g.r.Intn(len(g.U.nums))
@@ -683,7 +683,7 @@ func (g *Gen) updater(bulk bool) []interface{} {
 		return []interface{}{"append", B("arr"), g.smallNum()}
 	case k < 88:
 		return []interface{}{"appendInPlace", B("arr"), g.smallNum()}
-	case k < 94 && bulk:
+	case k < 94 && (bulk || g.chance(0.4)): // the updater of UpdateById may return nil as well
 		return []interface{}{"nil"}
 	case g.chance(g.P.Invalid):
 		// an update producing an invalid document: rewrites _id / breaks _expiresAt
